@@ -251,6 +251,48 @@ def lambda_reads_class_comprehension_variable(tree, read):
     return False
 
 
+def comprehension_under_class_global(tree, read):
+    """the read lies inside a comprehension written directly in a class body that declares the identifier global:
+    the declaration holds for the class body only (the comprehension is a scope of its own and finds the name of the
+    enclosing function, or the builtin), supp applies it inside the comprehension too (C05 finding of that name)."""
+    node = _node_at(tree, read['line'], read['col'], read['name'])
+    if node is None:
+        return False
+    par = _parents(tree)
+    n, in_comp = node, False
+    while n in par:
+        n = par[n]
+        if isinstance(n, _COMPS):
+            in_comp = True
+        elif isinstance(n, (ast.FunctionDef, ast.AsyncFunctionDef, ast.Lambda)):
+            return False
+        elif isinstance(n, ast.ClassDef):
+            return in_comp and any(isinstance(st, ast.Global) and node.id in st.names for st in n.body)
+    return False
+
+
+def annotation_reads_name_bound_in_default(tree, read):
+    """the read lies in a parameter or return annotation of a def whose default values bind the identifier with an
+    assignment expression: CPython evaluates all defaults before the annotations, supp goes by text position."""
+    node = _node_at(tree, read['line'], read['col'], read['name'])
+    if node is None:
+        return False
+    for f in ast.walk(tree):
+        if not isinstance(f, (ast.FunctionDef, ast.AsyncFunctionDef)):
+            continue
+        a = f.args
+        anns = [x.annotation for x in a.posonlyargs + a.args + a.kwonlyargs + [a.vararg, a.kwarg] if x is not None and x.annotation]
+        if f.returns:
+            anns.append(f.returns)
+        if not any(node is y for ann in anns for y in ast.walk(ann)):
+            continue
+        for dflt in list(a.defaults) + [k for k in a.kw_defaults if k is not None]:
+            for y in ast.walk(dflt):
+                if isinstance(y, ast.NamedExpr) and y.target.id == node.id:
+                    return True
+    return False
+
+
 def _all_readers(tree, info, name, pred):
     rs = info.get('readers')
     return bool(rs) and all(pred(tree, {'line': r[0], 'col': r[1], 'name': name}) for r in rs)
@@ -258,7 +300,9 @@ def _all_readers(tree, info, name, pred):
 
 def classify(prop, kind, text, tree, read, info):
     for pred, label in ((target_reads_earlier_target, 'assignment-target-reads-a-name-bound-by-an-earlier-target-of-the-statement'),
-                        (lambda_reads_class_comprehension_variable, 'comprehension-target-read-in-nested-scope-resolves-outward')):
+                        (lambda_reads_class_comprehension_variable, 'comprehension-target-read-in-nested-scope-resolves-outward'),
+                        (comprehension_under_class_global, 'class-global-declaration-applied-inside-class-level-comprehension'),
+                        (annotation_reads_name_bound_in_default, 'annotation-reads-a-name-bound-in-a-default-of-the-same-def')):
         if kind == 'lint-unused-but-read':
             if _all_readers(tree, info, read['name'], pred):
                 return label
